@@ -2143,14 +2143,15 @@ bool CanettiGennaroJareckiKrawczykRabinDKG::Generate
 			mpz_add_ui(d_i[i], d_i[i], 1L);
 		if (simulate_faulty_behaviour && simulate_faulty_randomizer[4])
 			mpz_add_ui(dprime_i[i], dprime_i[i], 1L);
-		// remove those players from $QUAL$, who are disqualified in this Joint-RVSS
+		// Players from $QUAL$, who are disqualified in this Joint-RVSS, have failed: they
+		// take no part in steps 4.-6. and $z_j$ is publicly reconstructed in step 7. They
+		// must stay in $QUAL$, because the shares $x_i$ already include their contribution.
 		for (size_t j = 0; j < n; j++)
 		{
 			std::vector<size_t>::iterator it = std::find(QUAL.begin(), QUAL.end(), idx2dkg[j]);
 			if ((it != QUAL.end()) && (std::find(d_rvss->QUAL.begin(), d_rvss->QUAL.end(), idx2dkg[j]) == d_rvss->QUAL.end()))
 			{
-				err << "DKG(" << label << "): P_" << idx2dkg[i] << ": WARNING - party erased from QUAL; complaint against P_" << idx2dkg[j] << std::endl;
-				QUAL.erase(it);
+				err << "DKG(" << label << "): P_" << idx2dkg[i] << ": WARNING - party failed in Joint-RVSS for d; complaint against P_" << idx2dkg[j] << std::endl;
 				complaints.push_back(idx2dkg[j]);
 			}
 		}
@@ -2162,7 +2163,8 @@ bool CanettiGennaroJareckiKrawczykRabinDKG::Generate
 				rbc->Broadcast(d_i[i]);
 				rbc->Broadcast(dprime_i[i]);
 			}
-			else if ((j != i) && (std::find(QUAL.begin(), QUAL.end(), idx2dkg[j]) != QUAL.end()))
+			else if ((j != i) && (std::find(QUAL.begin(), QUAL.end(), idx2dkg[j]) != QUAL.end()) &&
+				(std::find(d_rvss->QUAL.begin(), d_rvss->QUAL.end(), idx2dkg[j]) != d_rvss->QUAL.end()))
 			{
 				if (!rbc->DeliverFrom(d_i[j], j))
 				{
@@ -2251,7 +2253,8 @@ bool CanettiGennaroJareckiKrawczykRabinDKG::Generate
 		// exchanged in this step for convenience.
 		for (size_t j = 0; j < n; j++)
 		{
-			if ((j != i) && (std::find(QUAL.begin(), QUAL.end(), idx2dkg[j]) != QUAL.end()))
+			if ((j != i) && (std::find(QUAL.begin(), QUAL.end(), idx2dkg[j]) != QUAL.end()) &&
+				(std::find(d_rvss->QUAL.begin(), d_rvss->QUAL.end(), idx2dkg[j]) != d_rvss->QUAL.end()))
 			{
 				if (!rbc->DeliverFrom(foo, j))
 				{
@@ -2326,7 +2329,8 @@ bool CanettiGennaroJareckiKrawczykRabinDKG::Generate
 		complaints.clear();		
 		for (size_t j = 0; j < n; j++)
 		{
-			if ((j != i) && (std::find(QUAL.begin(), QUAL.end(), idx2dkg[j]) != QUAL.end()))
+			if ((j != i) && (std::find(QUAL.begin(), QUAL.end(), idx2dkg[j]) != QUAL.end()) &&
+				(std::find(d_rvss->QUAL.begin(), d_rvss->QUAL.end(), idx2dkg[j]) != d_rvss->QUAL.end()))
 			{
 				size_t who;
 				size_t cnt = 0;
